@@ -483,6 +483,9 @@ def run(run, model):
     from rules import c01
     run.try_rule(c01.r01_5, model, ("crates/compiler/src/compile_match.rs",))
     run.try_rule(r06_14, model)
+    # a pattern variable named like a struct must be bound to its component (shared with C05 R05.14)
+    from rules import c05 as _c05
+    run.try_rule(_c05.r05_14, model)
     # a literal pattern whose range check is skipped is compiled as the pattern `0`: another arm is selected (shared with C10 R10.6)
     from rules import c10
     run.try_rule(c10.r10_6, model)
